@@ -164,7 +164,15 @@ def check_case(case):
                 labels.append("nyquist-refused")
                 nontrivial = True
                 return
-            raise Violation(f"{what}: process refused a valid request ({r.exc}); policy {policy}, dts {sub_dts}, max fc {max(fcs):.6g}")
+            # not a Nyquist refusal: consistent only if a retained recording is refused when processed alone too
+            # (e.g. a Savitzky-Golay stencil that reaches past the last FFT bin gives "amplitude may not contain nan")
+            for opt in options:
+                for i in opt:
+                    e = alone(i)
+                    if isinstance(e, Refusal) and str(e.exc) == str(r.exc):
+                        labels.append("refused-alone-too")
+                        return
+            raise Violation(f"{what}: process refused a valid request ({r.exc}); policy {policy}, dts {sub_dts}, max fc {max(fcs):.9g}")
         require(not diffuse_mixed, f"{what}: diffuse field accepted recordings with different time steps under frequency_domain_resampling")
         if all(refuses(opt) for opt in options):
             raise Violation(f"{what}: centre frequency {max(fcs):.6g} Hz above the Nyquist frequency of a processed recording "
